@@ -1,9 +1,9 @@
 package drive
 
 import (
-	abci "github.com/cometbft/cometbft/abci/types"
 	"bytes"
 	"fmt"
+	abci "github.com/cometbft/cometbft/abci/types"
 	"math/rand"
 
 	sdk "github.com/cosmos/cosmos-sdk/types"
@@ -188,7 +188,7 @@ func relayerHistory(w *tracew.Writer, seed int64, run, depth int, period, timeou
 	if r0.Intn(2) == 0 {
 		for k := 1 + r0.Intn(2); k > 0; k-- {
 			b := nv + 1 + r0.Intn(6-nv) // member indexes are 0-based here; index 7 is the outsider
-			a := r0.Intn(nv + 1) // a founding member (proposer or voter), so that both holders of the key sit in the group together
+			a := r0.Intn(nv + 1)        // a founding member (proposer or voter), so that both holders of the key sit in the group together
 			if a != b {
 				share = append(share, [2]int{a, b})
 			}
